@@ -16,6 +16,10 @@ pub(super) struct State {
     last_send_access: Option<Access>,
     /// Last access that was a receive operation.
     last_recv_access: Option<Access>,
+    /// Last access that was a `try_recv`. Unlike a blocking receive, whose
+    /// order with sends is forced by being disabled while the channel is
+    /// empty, the result of a `try_recv` depends on its order with a send.
+    last_try_recv_access: [Option<Access>; 1],
 
     /// A synchronization point for synchronizing the sending threads and the
     /// channel.
@@ -47,6 +51,8 @@ pub(super) enum Action {
     MsgSend,
     /// Receive a message
     MsgRecv,
+    /// Receive a message if there is one
+    MsgTryRecv,
 }
 
 impl Channel {
@@ -56,6 +62,7 @@ impl Channel {
                 msg_cnt: 0,
                 last_send_access: None,
                 last_recv_access: None,
+                last_try_recv_access: [None],
                 sender_synchronize: Synchronize::new(),
                 receiver_synchronize: VecDeque::new(),
                 created: location,
@@ -122,7 +129,7 @@ impl Channel {
     /// Receives a message if one is queued. Returns `false` if the channel is
     /// empty. Never blocks, but is a branch point dependent with sends.
     pub(crate) fn try_recv(&self, location: Location) -> bool {
-        self.state.branch_action(Action::MsgRecv, location);
+        self.state.branch_action(Action::MsgTryRecv, location);
 
         if self.is_empty() {
             return false;
@@ -196,6 +203,15 @@ impl State {
         match action {
             Action::MsgSend => self.last_send_access.as_ref(),
             Action::MsgRecv => self.last_recv_access.as_ref(),
+            Action::MsgTryRecv => self.last_send_access.as_ref(),
+        }
+    }
+
+    /// A send is also dependent with the last `try_recv`.
+    pub(super) fn more_dependent_accesses(&self, action: Action) -> &[Option<Access>] {
+        match action {
+            Action::MsgSend => &self.last_try_recv_access,
+            _ => &[],
         }
     }
 
@@ -203,6 +219,10 @@ impl State {
         match action {
             Action::MsgSend => Access::set_or_create(&mut self.last_send_access, path_id, version),
             Action::MsgRecv => Access::set_or_create(&mut self.last_recv_access, path_id, version),
+            Action::MsgTryRecv => {
+                Access::set_or_create(&mut self.last_recv_access, path_id, version);
+                Access::set_or_create(&mut self.last_try_recv_access[0], path_id, version);
+            }
         }
     }
 }
